@@ -6,7 +6,7 @@ import ast
 from ..cfg import CFG
 from ..core import AnalysisError, parent, ClassInfo, own_nodes, short, unparse
 from ..oracles import content_model as cm_oracle
-from ..rules import trav, dsp, isdrules, pur
+from ..rules import trav, dsp, isdrules, pur, match
 from . import c14, common
 
 EXPLANATION = (
@@ -115,8 +115,10 @@ def _special_guarded(st, name):
   """Is statement `st` inside the true branch of `if <name> is/== <SpecialValues member>`?"""
   cur, par = st, getattr(st, "_parent", None)
   while par is not None and not isinstance(par, (ast.FunctionDef,)):
-    if isinstance(par, ast.If) and cur in par.body and "SpecialValues." in unparse(par.test) and name in unparse(par.test):
-      return True
+    if isinstance(par, ast.If):
+      rel = match.relation(par.test, lambda e: unparse(e) == name, lambda e: "SpecialValues." in unparse(e))
+      if (rel in ("is", "==") and any(x is cur for x in par.body)) or (rel in ("is not", "!=") and any(x is cur for x in par.orelse)):
+        return True
     cur, par = par, getattr(par, "_parent", None)
   return False
 
